@@ -257,7 +257,7 @@ func parseRequestBody(c *Client, r *Request) (err error) {
 	}
 
 	// handle form data
-	if len(c.FormData) > 0 {
+	if len(c.FormData) > 0 && r.RetryAttempt <= 0 { // merge client-level form data once, not again on every retry attempt
 		r.SetFormDataFromValues(c.FormData)
 	}
 
